@@ -29,3 +29,6 @@ import Mp.RoundTripGo
 #print axioms Mp.sprint_erPath
 #print axioms Mp.sprint_of_same_structure
 #print axioms Mp.sprintLogic_of_same_structure
+#print axioms Mp.funcLoop_args
+#print axioms Mp.parseFunc_callA
+#print axioms Mp.go_arg
